@@ -114,4 +114,39 @@ PROPS = {
         cfgs_quick=["std-debug", "std-release", "nosimd-debug"],
         cfgs_thorough=ALL4,
     ),
+    "C12": dict(
+        theorems=["leaf", "required_provided", "leafTable_complete"],
+        gen=g("C12"),
+        cfgs_quick=["std-release", "nosimd-release"],
+        cfgs_thorough=ALL4,
+    ),
+    "C13": dict(
+        theorems=["lanes_roundtrip", "extract_insert", "transpose4_is_transpose", "to_scalars_order",
+                  "bytes_le_roundtrip", "bytes_be_roundtrip", "storage_views"],
+        gen=g("C13"),
+        cfgs_quick=["std-release", "nosimd-release"],
+        cfgs_thorough=ALL4,
+    ),
+    "C03": dict(
+        theorems=["backend_eq_ref", "dispatch_total", "dispatch_sound"],
+        gen=g("C03"),
+        cfgs_quick=["std-release", "nosimd-release"],
+        cfgs_thorough=ALL4,
+    ),
+    "C06": dict(
+        theorems=["jh_conforms", "f8_conforms", "round_refines", "constants_conform", "h0_conforms",
+                  "ss_is_sbox", "l_is_L", "swap_is_xor", "jh_conforms_partial",
+                  "jh_datalen_exact", "jh_datalen_overflow_debug", "jh_bitlen_check"],
+        gen=g("C06"),
+        cfgs_quick=["std-debug", "std-release", "nosimd-debug"],
+        cfgs_thorough=ALL4,
+    ),
+    "C07": dict(
+        theorems=["groestl_conforms_partial", "counter_exact", "final_count_exact"],
+        gen=g("C07"),
+        cfgs_quick=["std-debug", "std-release"],
+        cfgs_thorough=["std-debug", "std-release"],
+        strength="partial",
+        partial_note="tf = f and of = Ω are hypotheses of groestl_conforms_partial, discharged on concrete inputs by evaluation",
+    ),
 }
